@@ -311,8 +311,37 @@ namespace {
       }
    }
 
+   // The bitwise helpers are templates over every enumeration-typed set: they must act on the WHOLE representation (the
+   // sets are std::uintptr_t wide), not only on the coordinates the library hands out today.
+   template<class T>
+   void full_width_laws(const char* tag)
+   {
+      using R = std::underlying_type_t<T>;
+      constexpr int W = int(sizeof(R) * 8);
+      auto bad = [&](const char* op, int i, int j) {
+         rep.violation(std::string("C10:") + tag + ":full-width:" + op, i + j, std::string("operator ") + op + " on " + tag + " sets loses or invents bits beyond the low word (bits " + std::to_string(i) + " and " + std::to_string(j) + ")",
+                       vf::JObj{}.str("pass", "C10").str("kind", "full-width").raw("ops", vf::jarr(std::vector<long long>{ i, j })).done());
+      };
+      for (int i = 0; i < W; ++i)
+         for (int j = 0; j < W; ++j) {
+            const R ra = R(1) << i, rb = (R(1) << j) | (R(1) << ((j + 7) % W));
+            const T a{ ra }, b{ rb };
+            rep.count("transitions", 7);
+            if (R(a | b) != (ra | rb)) bad("|", i, j);
+            if (R(a & b) != (ra & rb)) bad("&", i, j);
+            if (R(a ^ b) != (ra ^ rb)) bad("^", i, j);
+            if (ipr::implies(b, a) != ((rb & ra) == ra)) bad("implies", i, j);
+            T t = a; t |= b; if (R(t) != (ra | rb)) bad("|=", i, j);
+            T u = b; u &= a; if (R(u) != (ra & rb)) bad("&=", i, j);
+            T w = a; w ^= b; if (R(w) != (ra ^ rb)) bad("^=", i, j);
+         }
+      rep.count("states", W * W);
+      rep.count("traces");
+   }
+
    void run(bool all_pairs)
    {
+      if (opt.shard == 0) { full_width_laws<ipr::Specifiers>("spec"); full_width_laws<ipr::Qualifiers>("qual"); }
       request_histories(all_pairs);
       ipr::impl::Lexicon lex;
       {
